@@ -109,7 +109,12 @@ def run(case):
                     if adv: await asyncio.sleep(adv * TICK)
                     t = tick()
                     if nested and i >= half:
-                        inner = uow if nested in ("same", "same_twice") else (cache.transaction() if case.get("default_mode") else cache.transaction(mode=mode))
+                        if nested in ("same", "same_twice"): inner = uow
+                        elif case.get("default_mode"): inner = cache.transaction()
+                        elif len(case["cmds"]) % 2:      # an inner block that asks for ANOTHER mode still joins the running transaction
+                            inner = cache.transaction(mode={TransactionMode.FAST: TransactionMode.LOCKED, TransactionMode.LOCKED: TransactionMode.SERIALIZABLE,
+                                                            TransactionMode.SERIALIZABLE: TransactionMode.FAST}[mode])
+                        else: inner = cache.transaction(mode=mode)
                         async with inner:
                             if nested == "same_twice":
                                 async with uow:
